@@ -293,7 +293,7 @@ class KaniSession:
         res["_raw"] = out
         return res
 
-    def run_single_regular(self, harness, timeout=1800, playback=False):
+    def run_single_regular(self, harness, timeout=900, playback=False):
         self.set_contracts(harness in getattr(self, "contract_harnesses", ()))
         cmd = ["cargo", "kani", "-Z", "function-contracts", "-Z", "stubbing", "--harness", harness]
         if playback:
